@@ -175,6 +175,48 @@ struct result {
   char err_head[240];
 };
 
+/* ---- batch mode: argv, environment and directory differ per case ---------- */
+
+static char *prev_env[64];
+static int nprev_env;
+static char *case_argv[256];
+static char home_dir[4096];
+
+static void
+batch_install_case(void)
+{
+  const char *p = vs_rec->req;
+  uint32_t n, i;
+  for (i = 0; i < (uint32_t)nprev_env; i++) {
+    unsetenv(prev_env[i]);
+    free(prev_env[i]);
+  }
+  nprev_env = 0;
+  memcpy(&n, p, 4); p += 4;
+  for (i = 0; i < n && i < 255; i++) {
+    case_argv[i] = (char *)p;
+    p += strlen(p) + 1;
+  }
+  case_argv[i] = NULL;
+  vs_inproc_set_args((int)i, case_argv);
+  memcpy(&n, p, 4); p += 4;
+  for (i = 0; i < n; i++) {
+    const char *eq = strchr(p, '=');
+    if (eq && nprev_env < 64) {
+      char *name = strndup(p, eq - p);
+      setenv(name, eq + 1, 1);
+      prev_env[nprev_env++] = name;
+    }
+    p += strlen(p) + 1;
+  }
+  if (*p) {
+    if (chdir(p) != 0)
+      _exit(249);
+  }
+  else if (home_dir[0] && chdir(home_dir) != 0)
+    _exit(249);
+}
+
 static void
 executor_spawn(void)
 {
@@ -209,8 +251,12 @@ executor_spawn(void)
       sched_setaffinity(0, sizeof cs, &cs);
     }
     vs_inproc_init(l_argc, l_argv);
+    if (!getcwd(home_dir, sizeof home_dir))
+      home_dir[0] = 0;
     while (read(rq[0], &c, 1) == 1) {
       vs_cfg = vs_rec->cfg;
+      if (vs_rec->req_len)
+        batch_install_case();
       vs_inproc_run();
       if (write(rs[1], "d", 1) != 1)
         break;
@@ -610,6 +656,7 @@ main(int argc, char **argv)
   static const unsigned wb[] = { WENV_SHORT1, WENV_HALF, WENV_EIO, WENV_ENOSPC, WENV_EPIPE, WENV_EFBIG };
   static const char *const sn[] = { "int", "term", NULL };
   static const unsigned sb[] = { 1, 2 };
+  const char *cases_file = NULL, *outdir = NULL;
   const char *mode, *stdin_file = NULL, *save_out = NULL, *save_err = NULL, *argv0 = "lbzip2";
   int policies[3], npol = 0, i, trace = 0, want_cps = 0;
   double deadline = 0, t0 = now();
@@ -670,6 +717,8 @@ main(int argc, char **argv)
     else if (!strcmp(a, "--argv0")) argv0 = ARG();
     else if (!strcmp(a, "--chdir")) chdir_to = ARG();
     else if (!strcmp(a, "--fork")) use_fork = 1;
+    else if (!strcmp(a, "--cases")) cases_file = ARG();
+    else if (!strcmp(a, "--outdir")) outdir = ARG();
     else if (!strcmp(a, "--cpu-base")) cpu_base = atoi(ARG());
     else {
       fprintf(stderr, "lbzx: unknown option %s\n", a);
@@ -742,6 +791,122 @@ main(int argc, char **argv)
     fputs("]", out);
     if (want_cps) { fputc(',', out); print_trace(out); }
     fputs("}\n", out);
+    fclose(out);
+    return 0;
+  }
+
+  if (!strcmp(mode, "batch")) {
+    /* ---- batch: many independent cases, canonical schedule each ---- */
+    struct brec { int kind, code; uint64_t out_len, out_hash, err_len, err_hash; unsigned inv, san, ncp; char head[96]; };
+    int fd = open(cases_file ? cases_file : "", O_RDONLY);
+    struct stat st;
+    unsigned char *cf;
+    size_t off, ncases = 0, capc = 0, *offs = NULL;
+    struct brec *res;
+    volatile uint64_t *next;
+    int w;
+    pid_t *pids;
+    if (fd < 0 || fstat(fd, &st) != 0) {
+      perror("cases file");
+      return 2;
+    }
+    cf = mmap(NULL, st.st_size ? st.st_size : 1, PROT_READ, MAP_PRIVATE, fd, 0);
+    if (st.st_size < 7 || memcmp(cf, "LBZXB1\n", 7)) {
+      fprintf(stderr, "lbzx: bad cases file\n");
+      return 2;
+    }
+    off = 7;
+    while (off + 4 <= (size_t)st.st_size) {
+      uint32_t n, k, l;
+      if (ncases == capc) {
+        capc = capc ? capc * 2 : 4096;
+        offs = realloc(offs, capc * sizeof *offs);
+      }
+      offs[ncases++] = off;
+      memcpy(&n, cf + off, 4); off += 4;
+      for (k = 0; k < n; k++) { memcpy(&l, cf + off, 4); off += 4 + l; }
+      memcpy(&n, cf + off, 4); off += 4;
+      for (k = 0; k < n; k++) { memcpy(&l, cf + off, 4); off += 4 + l; }
+      memcpy(&l, cf + off, 4); off += 4 + l;      /* chdir */
+      off += 12;                                  /* flags rfrag wfrag */
+      memcpy(&l, cf + off, 4); off += 4;
+      if (l != 0xffffffffu) off += l;
+    }
+    res = mmap(NULL, (ncases + 1) * sizeof *res, PROT_READ | PROT_WRITE, MAP_SHARED | MAP_ANONYMOUS, -1, 0);
+    next = mmap(NULL, 4096, PROT_READ | PROT_WRITE, MAP_SHARED | MAP_ANONYMOUS, -1, 0);
+    pids = calloc(jobs, sizeof *pids);
+    for (w = 0; w < jobs; w++) {
+      pids[w] = fork();
+      if (pids[w] == 0) {
+        vs_rec = mmap(NULL, sizeof *vs_rec, PROT_READ | PROT_WRITE, MAP_SHARED | MAP_ANONYMOUS, -1, 0);
+        in_len = 0;
+        setup_fds();
+        pin_cpu = (cpu_base + w) % (int)sysconf(_SC_NPROCESSORS_ONLN);
+        for (;;) {
+          uint64_t it = __atomic_fetch_add(next, 1, __ATOMIC_RELAXED);
+          struct vs_config cfg = base_cfg;
+          struct result r;
+          const unsigned char *p;
+          char *q;
+          uint32_t n, k, l, fl, rf, wf;
+          if (it >= ncases)
+            break;
+          p = cf + offs[it];
+          q = vs_rec->req;
+          memcpy(&n, p, 4); p += 4;
+          memcpy(q, &n, 4); q += 4;
+          for (k = 0; k < n; k++) { memcpy(&l, p, 4); p += 4; memcpy(q, p, l); q[l] = 0; q += l + 1; p += l; }
+          memcpy(&n, p, 4); p += 4;
+          memcpy(q, &n, 4); q += 4;
+          for (k = 0; k < n; k++) { memcpy(&l, p, 4); p += 4; memcpy(q, p, l); q[l] = 0; q += l + 1; p += l; }
+          memcpy(&l, p, 4); p += 4; memcpy(q, p, l); q[l] = 0; q += l + 1; p += l;
+          vs_rec->req_len = (uint32_t)(q - vs_rec->req);
+          memcpy(&fl, p, 4); memcpy(&rf, p + 4, 4); memcpy(&wf, p + 8, 4); p += 12;
+          memcpy(&l, p, 4); p += 4;
+          if (ftruncate(fd_in, 0)) { }
+          if (l != 0xffffffffu && l > 0 && pwrite(fd_in, p, l, 0) != (ssize_t)l) { }
+          cfg.policy = fl & 3;
+          cfg.ign_sigpipe = (fl >> 3) & 1;
+          cfg.rfrag = rf;
+          cfg.wfrag = wf;
+          cfg.ndev = 0;
+          run_exec(&cfg, &r, 0);
+          res[it].kind = r.kind; res[it].code = r.code;
+          res[it].out_len = r.out_len; res[it].out_hash = r.out_hash;
+          res[it].err_len = r.err_len; res[it].err_hash = r.err_hash;
+          res[it].inv = vs_rec->inv_flags; res[it].san = r.sanitizer; res[it].ncp = vs_rec->ncp;
+          snprintf(res[it].head, sizeof res[it].head, "%s", r.err_head);
+          if ((fl & 4) && outdir) {
+            char path[4096];
+            size_t n2;
+            unsigned char *b = slurp_fd(fd_out, &n2);
+            FILE *f;
+            snprintf(path, sizeof path, "%s/%llu.out", outdir, (unsigned long long)it);
+            f = fopen(path, "wb");
+            if (f) { fwrite(b, 1, n2, f); fclose(f); }
+            free(b);
+          }
+        }
+        _exit(0);
+      }
+    }
+    for (w = 0; w < jobs; w++) {
+      int stw;
+      waitpid(pids[w], &stw, 0);
+      if (!WIFEXITED(stw) || WEXITSTATUS(stw) != 0) {
+        fprintf(stderr, "lbzx: batch worker failed\n");
+        return 2;
+      }
+    }
+    out = fdopen(dup(1), "w");
+    for (off = 0; off < ncases; off++) {
+      char *nl;
+      for (nl = res[off].head; *nl; nl++) if (*nl == '\n' || *nl == '\t') *nl = ' ';
+      fprintf(out, "%zu\t%s\t%d\t%llu\t%016llx\t%llu\t%016llx\t%u\t%u\t%u\t%s\n", off, kindname(res[off].kind),
+              res[off].code, (unsigned long long)res[off].out_len, (unsigned long long)res[off].out_hash,
+              (unsigned long long)res[off].err_len, (unsigned long long)res[off].err_hash,
+              res[off].inv, res[off].san, res[off].ncp, res[off].head);
+    }
     fclose(out);
     return 0;
   }
